@@ -331,3 +331,29 @@ def rule_role_zip(ck, repo, R, select, floor):
                       file=fn.file, line=n.lineno, func=fn.qualname, construct=src(n)[:140])
     ck.count(f'{R}: pairing sites', n_sites)
     ck.floor(R, floor)
+
+
+def rule_hash_covers_eq(ck, repo, R, classes):
+    """__hash__ hashes each attribute __eq__ compares between two objects of the class, once: a field hashed twice in place of its partner makes objects
+    that differ in the partner collide systematically (and everything keyed by the hash -- Morgan classes, signatures -- merges them)"""
+    ck.rule(R, 'for the dynamic (reactant/product pair) atom and bond classes and the query bond: the multiset of `self.<attr>` read by __hash__ equals the set of '
+               'attributes compared as `self.<attr> == other.<attr>` in __eq__ (no attribute twice, none missing)')
+    n = 0
+    for fq in classes:
+        c = repo.cls(fq)
+        h, e = c.method('__hash__'), c.method('__eq__')
+        ck.require(h is not None and e is not None, f'{fq}: __hash__ / __eq__ not found')
+        hashed = [x.attr for x in ast.walk(h.node) if isinstance(x, ast.Attribute) and isinstance(x.value, ast.Name) and x.value.id == 'self' and isinstance(x.ctx, ast.Load)]
+        compared = set()
+        for x in ast.walk(e.node):
+            if isinstance(x, ast.Compare) and len(x.ops) == 1 and isinstance(x.ops[0], (ast.Eq, ast.NotEq)):
+                l, r = x.left, x.comparators[0]
+                if isinstance(l, ast.Attribute) and isinstance(r, ast.Attribute) and l.attr == r.attr and {src(l.value), src(r.value)} == {'self', 'other'}:
+                    compared.add(l.attr)
+        n += 1
+        dup = sorted({a for a in hashed if hashed.count(a) > 1})
+        ck.decide(not dup and set(hashed) == compared, R, c.name, sorted(hashed),
+                  f'{c.name}.__hash__ reads {hashed}' + (f' ({dup} twice)' if dup else '') + f' while __eq__ compares {sorted(compared)}: '
+                  f'objects differing only in {sorted(compared - set(hashed)) or sorted(set(hashed) - compared)} hash alike / unlike against __eq__',
+                  file=h.file, line=h.lineno, func=h.qualname, construct=' '.join(src(h.node.body[-1]).split())[:120])
+    ck.floor(R, len(classes))
